@@ -80,6 +80,25 @@ macro_rules! with_d {
     };
 }
 
+/// `sample` only: additionally a dimension beyond one byte (D is an unbounded const generic) and an odd one beyond the usual range
+macro_rules! with_d_sample {
+    ($d:expr, $D:ident, $body:block) => {
+        match $d {
+            1 => { const $D: usize = 1; $body }
+            2 => { const $D: usize = 2; $body }
+            3 => { const $D: usize = 3; $body }
+            4 => { const $D: usize = 4; $body }
+            5 => { const $D: usize = 5; $body }
+            6 => { const $D: usize = 6; $body }
+            7 => { const $D: usize = 7; $body }
+            8 => { const $D: usize = 8; $body }
+            13 => { const $D: usize = 13; $body }
+            260 => { const $D: usize = 260; $body }
+            _ => panic!("harness: unsupported dimension"),
+        }
+    };
+}
+
 // ------------------------------------------------------------------------------------------------
 // logger capturing the debug log (feature `log`)
 // ------------------------------------------------------------------------------------------------
@@ -463,7 +482,7 @@ fn op_sample(j: &Value) -> Value {
     let sig = get_sig(j, "sig");
     let xs = get_fs(j, "x");
     let settings = settings_from(j);
-    with_d!(d, D, {
+    with_d_sample!(d, D, {
         // with an "api_graph" the sampler is built through the public API (Graph::build_sampler with the caller's signature), so
         // that whatever build_sampler does with the graph and the signature is part of what is observed; otherwise from the parts
         let gen = if j.get("api_graph").map(|g| !g.is_null()).unwrap_or(false) {
